@@ -49,6 +49,20 @@ type c15Case struct {
 	// NNPFlag: if set, the spelling of the no-new-privs option on the command line ("absent" = not given at all),
 	// instead of -no-new-privs=<NNP>
 	NNPFlag string `json:"nnp_flag,omitempty"`
+	// ExtraKeys != 0 (valid files only): groups carry keys the documented dialect does not have (arch: <some architecture>,
+	// comment: ..., architectures: [...]). The file is refused, or it means what it means without them.
+	ExtraKeys uint64 `json:"extra_keys,omitempty"`
+}
+
+var c15ExtraKeyLines = []string{"arch: i386\n", "arch: x86_64\n", "arch: arm\n", "arch: aarch64\n", "arch: x32\n", "arch: \"386\"\n", "architectures: [i386, x32]\n", "comment: generated\n",
+	"description: \"rules for 32-bit callers\"\n", "abi: i386\n", "arches:\n- i386\n- arm\n", "default_action: allow\n", "args: []\n"}
+
+func c15ExtraKey(seed uint64, gi int) string {
+	h := gen.Mix(seed, uint64(gi)+1)
+	if h%3 == 0 {
+		return ""
+	}
+	return c15ExtraKeyLines[(h/3)%uint64(len(c15ExtraKeyLines))]
 }
 
 var c15Defects = []string{"missing-file", "empty-file", "yaml-syntax", "wrong-type", "unknown-syscall", "unknown-syscall-conditional", "unknown-action",
@@ -102,6 +116,9 @@ func drawC15(t *rapid.T) c15Case {
 		for i := 0; i < n; i++ {
 			c.Env = append(c.Env, all[rapid.IntRange(0, len(all)-1).Draw(t, "env")])
 		}
+	}
+	if c.Defect == "" && rapid.IntRange(0, 3).Draw(t, "extraKeys") == 0 {
+		c.ExtraKeys = rapid.Uint64Range(1, 1<<40).Draw(t, "extraKeySeed")
 	}
 	switch rapid.IntRange(0, 3).Draw(t, "mode") {
 	case 0:
@@ -197,6 +214,9 @@ func c15PolicyText(c *c15Case) (text string, writeFile bool) {
 		p.Groups = append(p.Groups, g)
 	}
 	text = cfgwriter.YAML(&p, c.Spelling)
+	if c.ExtraKeys != 0 && c.Defect == "" {
+		text = cfgwriter.YAMLExtra(&p, c.Spelling, func(gi int) string { return c15ExtraKey(c.ExtraKeys, gi) })
+	}
 	lines := strings.Split(text, "\n")
 	pick := func(pred func(string) bool) int {
 		var idx []int
@@ -509,6 +529,14 @@ func checkC15(raw json.RawMessage) (ev.Result, error) {
 	}
 	// valid policy: the file must load; the target runs and observes exactly the policy's decisions
 	res.Classes = append(res.Classes, "valid")
+	if c.ExtraKeys != 0 {
+		res.Classes = append(res.Classes, "groups-with-keys-outside-the-dialect")
+		if !run.marker && (run.exit != 0 || run.signaled) {
+			res.Classes = append(res.Classes, "keys-outside-the-dialect:refused(no-claim)")
+			return res, nil
+		}
+		res.Classes = append(res.Classes, "keys-outside-the-dialect:accepted")
+	}
 	if !run.marker {
 		return res, fmt.Errorf("valid policy file (uid %d, no-new-privs=%v), but the target was not started: exit %d stderr %q\n%s", c.Uid, c.NNP, run.exit, clip(run.stderr, 400), clip(text, 1200))
 	}
